@@ -1324,6 +1324,8 @@ def replay(run: Run, path: str):
     use_impl()
     d = json.load(open(path))
     inp = d.get("input") or {}
+    if "ops" not in inp and "kwargs" in inp and "name" in inp:
+        return c13_settings.replay_one(run, inp)
     if "ops" not in inp:
         print("replay: this file records a broken obligation; re-running the check")
         return main(run)
